@@ -617,4 +617,6 @@ def run(P, R, tier):
     from . import c19
     c19.link_insert(P, R, 'C15.LINK.1')
     c19.link_remove(P, R, 'C15.LINK.1')
+    # the parser and the merge keep nothing from one load (or one entry, or one nested call) to the next
+    rules.no_static_locals(P, R, 'C15.WMC.9', P.unit_fns(P.need_fn('conf_read').unit), 'configuration code')
     return EXPLANATION, ASSUMPTIONS
